@@ -13,6 +13,6 @@ stat = ", ".join(f"round {i+1}: {v[0]}/{v[1]}" for i, (k, v) in enumerate(sorted
 table = subprocess.run(["/verif/tools/seed_table.py"], capture_output=True, text=True).stdout
 a = s.index("| seed | property | change and what it needs to manifest | outcome |"); b = s.index("### 6.2 My own mutants")
 s = s[:a] + table + "\n" + s[b:]
-s = re.sub(r"Caught by the first run of the check \*as it stood at that moment\*: [^(]*\(", f"Caught by the first run of the check *as it stood at that moment*: {stat} ({c} of {n}) (", s)
+s = re.sub(r"Caught by the first run of the check \*as it stood at that moment\*: .*?\(misses that", f"Caught by the first run of the check *as it stood at that moment*: {stat} ({c} of {n}) (misses that", s, flags=re.S)
 open(p, 'w').write(s)
 print(stat, c, n)
